@@ -622,3 +622,60 @@ func isFieldOfNamed(v ssa.Value, n *types.Named) bool {
 	nn, ok := t.(*types.Named)
 	return ok && nn.Obj() == n.Obj()
 }
+
+// checkSinglePost (R1.4): the sidecar replaces its whole target list on every request, so the list of a shard must
+// reach it as one request: in the method that posts the list (Shard.UpdateTarget) the POST is not inside a loop,
+// there is one POST, and what it sends is the request it was given.
+func (c *coord) checkSinglePost(r *engine.Report) {
+	up := c.p.SSAFunc(c.mUpdateTarget)
+	if up == nil {
+		return
+	}
+	fi := c.p.Info(up)
+	fPost := c.p.Field(pkgShard, "Shard", "APIPost")
+	var posts []*ssa.Call
+	for _, in := range allInstrs(up) {
+		if call, ok := in.(*ssa.Call); ok {
+			if _, ok := loadOfField(call.Call.Value, fPost); ok {
+				posts = append(posts, call)
+			}
+		}
+	}
+	var probs []string
+	if len(posts) != 1 {
+		probs = append(probs, fmt.Sprintf("%d POSTs in the method (one request must carry the whole list)", len(posts)))
+	}
+	for _, pc := range posts {
+		if loopOf(fi, pc.Block()) != nil {
+			probs = append(probs, "the POST at "+c.p.Rel(pc.Pos())+" is inside a loop: the list is sent in pieces and each piece replaces the one before")
+		}
+		sent := false
+		if len(pc.Call.Args) >= 2 {
+			v := unwrapIface(pc.Call.Args[1])
+			if len(up.Params) >= 2 {
+				if v == ssa.Value(up.Params[1]) {
+					sent = true
+				}
+				// the parameter spilled to a cell whose address is sent (&request)
+				if al, ok := v.(*ssa.Alloc); ok {
+					n, okAll := 0, true
+					for _, rr := range *al.Referrers() {
+						if st, ok := rr.(*ssa.Store); ok && st.Addr == ssa.Value(al) {
+							n++
+							if st.Val != ssa.Value(up.Params[1]) {
+								okAll = false
+							}
+						}
+					}
+					if n > 0 && okAll {
+						sent = true
+					}
+				}
+			}
+		}
+		if !sent {
+			probs = append(probs, "the POST at "+c.p.Rel(pc.Pos())+" does not send the request the method was given")
+		}
+	}
+	r.Check(len(probs) == 0, "R1.4-posted-list", "one request per list in "+engine.FuncName(up), engine.FuncName(up), "the whole list goes out in one POST (the sidecar replaces its list on every request)", strings.Join(probs, "; "))
+}
